@@ -298,7 +298,7 @@ type rtmrHistory struct {
 	Reqs      []rtmrReq `json:"reqs"`
 	FailMkdir int       `json:"fail_mkdir"`
 	FailWrite int       `json:"fail_write"`
-	ByValue   bool      `json:"by_value,omitempty"` // hand the client over as a by-value, non-comparable struct
+	ByValue   bool      `json:"by_value,omitempty"`   // hand the client over as a by-value, non-comparable struct
 	HideDir   int       `json:"hide_dir,omitempty"`   // the first HideDir listings of the rtmrs directory fail (-1: every listing)
 	HideIndex bool      `json:"hide_index,omitempty"` // the index attribute of the pre-existing entries is unreadable
 }
